@@ -174,6 +174,22 @@ def step (st : St) : List String → St × String
       (st, "ok " ++ showRatLists ((List.zip (List.zip zero delta) (List.zip dims ns)).map fun zd =>
         superAxis zd.1.1 zd.1.2 zd.2.1 zd.2.2))
     | _, _, _, _ => (st, "bad-op")
+  | ["subgrids", sys, sep, ns] =>
+    let sys? : Option Sys := match sys with
+      | "cartesian" => some .cartesian
+      | "polar" => some .polar
+      | "base" => some .base
+      | _ => none
+    match sys?, parseRatLists? sep, parseNatList? ns with
+    | some sys, some sep, some ns =>
+      if ns.any (· = 0) || ns.length ≠ sep.length || sep.any (·.length < 2) then (st, "bad-op") else
+      let showSys : Sys → String := fun s => match s with
+        | .cartesian => "cartesian"
+        | .polar => "polar"
+        | .base => "base"
+      let gs := subGrids ({ sys := sys, sep := sep } : SGrid Rat) ns
+      (st, "ok " ++ "|".intercalate (gs.map fun g => showSys g.sys ++ ":" ++ showRatLists g.sep))
+    | _, _, _ => (st, "bad-op")
   | ["ss", stat, c0, c, q, sep, ns] =>
     match parseRat? c0, parseRatList? c, parseRatList? q, parseRatLists? sep, parseNatList? ns with
     | some c0, some c, some q, some sep, some ns =>
